@@ -343,7 +343,11 @@ impl<W: Write> RecordBatchWriter for Writer<W> {
     }
 
     fn close(self) -> Result<(), ArrowError> {
-        Ok(())
+        // Flush explicitly: dropping the inner writer would flush as well, but discard any error
+        self.writer
+            .into_inner()
+            .map(|_| ())
+            .map_err(|e| ArrowError::from(e.into_error()))
     }
 }
 
